@@ -138,18 +138,29 @@ def extra(rep, repo, registry, known_open):
     rep.extra_parts.append({"name": "idc-vs-scm-oracle", "kind": "bounded", "decides": True, "evaluations": len(cases),
                             "scope": "every ADMG on 2-3 nodes x every conditional query, textbook graphs, sampled 4-6 node ADMGs; exact SCM evaluation",
                             "failures": len(fails), "wall_s": round(time.time() - t0, 1)})
-    # rule 2 against its definition (the contract's verdict clause is undecided in the quick tier: this is its bounded stand-in)
+    # rule 2 against its definition (the contract's verdict clause is undecided in the quick tier: this is its bounded stand-in);
+    # besides the queries above: every DAG on 4 nodes with 0 / 1 / 2 sampled bidirected edges x sampled conditional queries
+    r2_cases = list(cases)
+    import itertools as _itt
+    for vs, d, u in oracles.all_admgs(4):
+        if u:
+            continue
+        qs = list(cqueries(vs))
+        for k in (0, 1, 2):
+            uu = [tuple(e) for e in rng.sample(list(_itt.combinations(vs, 2)), k)]
+            for xs, ys, zs in rng.sample(qs, 6 if rep.tier == "quick" else 40):
+                r2_cases.append({"nodes": vs, "directed": d, "undirected": uu, "X": xs, "Y": ys, "Z": zs, "seed": rng.randrange(1 << 30)})
     r2_fails = []
     with mp.get_context("fork").Pool(16) as pool:
-        for c, why, err in pool.imap_unordered(_eval_r2, cases, chunksize=16):
+        for c, why, err in pool.imap_unordered(_eval_r2, r2_cases, chunksize=16):
             if err:
                 errs.append(err)
             elif why:
                 r2_fails.append((c, why))
     if errs:
         rep.errors.append(f"C03 rule-2 cross-check: {len(errs)} evaluation errors, e.g. {errs[0]}")
-    rep.extra_parts.append({"name": "rule-2-vs-definition", "kind": "bounded", "decides": True, "evaluations": len(cases),
-                            "scope": "the same queries: rule_2_of_do_calculus_applies for every condition against d-separation (networkx, canonical DAG) in the mutilated graph",
+    rep.extra_parts.append({"name": "rule-2-vs-definition", "kind": "bounded", "decides": True, "evaluations": len(r2_cases),
+                            "scope": "the same queries plus every DAG on 4 nodes with 0 / 1 / 2 sampled bidirected edges x sampled conditional queries: rule_2_of_do_calculus_applies for every condition against d-separation (networkx, canonical DAG) in the mutilated graph",
                             "failures": len(r2_fails)})
     if r2_fails and not fails:
         c, why = min(r2_fails, key=lambda f: (len(f[0]["nodes"]), len(f[0]["directed"]) + len(f[0]["undirected"])))
